@@ -5,6 +5,7 @@ CONSTANTS
   MaxCalls = 6
   Counts = {1, 2}
   Depth = 5
+  DrainedOK = TRUE
   OwedVals = {2}
 SPECIFICATION RSpec
 INVARIANT Emit
